@@ -47,10 +47,15 @@ func CopyValuesFromIndices(src, dst []string, keys []uint32) {
 }
 
 func KeyIndices(columns, keys []string) (res []uint32, err error) {
+	seen := map[int]struct{}{}
 	for _, k := range keys {
 		found := false
 		for i, c := range columns {
 			if c == k {
+				if _, ok := seen[i]; ok {
+					return nil, fmt.Errorf(`key "%s" is specified more than once`, k)
+				}
+				seen[i] = struct{}{}
 				res = append(res, uint32(i))
 				found = true
 				continue
